@@ -116,6 +116,18 @@ def observe(case, run_seconds=20, twice=False):
     real = case.get('real_model')
     if real is None and case['kind'] == 'script':
         real = A.gmodel(case['model'])
+        pre = case.pop('pre_model', None)
+        if pre is not None:
+            # the host ran ANOTHER program held in the very same model object before (and edited the object in place since):
+            # nothing of that earlier run may survive - the observed run is a run of the model as it is now
+            old = A.gmodel(pre)
+            try:
+                execute_script(old, {'globals': {'probe': lambda args, options: args[-1] if args else None, 'a': 0, 'b': None},
+                                     'maxStatements': 300})
+            except Exception:  # pylint: disable=broad-except
+                pass
+            old['statements'][:] = real['statements']
+            real = old
         case['real_model'] = real
     first = _observe(case, run_seconds)
     if twice:
